@@ -132,9 +132,11 @@ func c05Base(base []byte, origin string, rng *splitmix, env *Env, samples int) (
 	var plan *Plan
 	var viol *Violation
 	baseValid := verdict(base).Valid
+	var recent []streamCase
 	exh := faultedStreams(base, rng, 700, samples, func(sc streamCase) bool {
 		idx++
 		v := c05Case(&sc, idx, env.St)
+		defer func() { recent = pushRecent(recent, sc) }()
 		if len(sc.Readers) == 1 {
 			// non-trivial: the fault changed the verdict of the stream
 			if verdict(sc.Readers[0].bytes()).Valid != baseValid {
@@ -144,7 +146,7 @@ func c05Base(base []byte, origin string, rng *splitmix, env *Env, samples int) (
 		if v != nil {
 			viol = v
 			scc := sc
-			plan = &Plan{Harness: 1, Property: "C05", World: World{Readers: sc.Readers, Host: HostSpec{Seed: sc.Seed}}, Extra: map[string]any{"case": scc, "index": idx, "origin": origin}}
+			plan = &Plan{Harness: 1, Property: "C05", World: World{Readers: sc.Readers, Host: HostSpec{Seed: sc.Seed}}, Extra: map[string]any{"case": scc, "index": idx, "origin": origin, "prelude": append([]streamCase{}, recent...)}}
 			return false
 		}
 		return true
@@ -226,17 +228,19 @@ func c05Fixed(env *Env) []*Plan {
 		beginActivity("C05 fixture " + f)
 		idx := 0
 		baseValid := verdict(b).Valid
+		var recent []streamCase
 		faultedStreams(b, rng, max, samples, func(sc streamCase) bool {
 			idx++
 			beginActivity("C05 fixture " + f)
 			v := c05Case(&sc, idx, env.St)
+			defer func() { recent = pushRecent(recent, sc) }()
 			if len(sc.Readers) == 1 && verdict(sc.Readers[0].bytes()).Valid != baseValid {
 				env.St.distinct("nontrivial", hashStr(string(sc.Readers[0].bytes()), sc.Kind))
 			}
 			if v != nil {
 				scc := sc
 				out = append(out, &Plan{Harness: 1, Property: "C05", World: World{Readers: sc.Readers, Host: HostSpec{Seed: sc.Seed}},
-					Extra: map[string]any{"case": scc, "index": idx, "origin": f}, Violation: v})
+					Extra: map[string]any{"case": scc, "index": idx, "origin": f, "prelude": append([]streamCase{}, recent...)}, Violation: v})
 				return false
 			}
 			return true
@@ -244,6 +248,15 @@ func c05Fixed(env *Env) []*Plan {
 		endActivity()
 	}
 	return out
+}
+
+// pushRecent keeps the last few loads of a process (those a history-dependent failure would need).
+func pushRecent(recent []streamCase, sc streamCase) []streamCase {
+	recent = append(recent, sc)
+	if len(recent) > 6 {
+		recent = recent[len(recent)-6:]
+	}
+	return recent
 }
 
 func c05Replay(plan *Plan) *Violation {
@@ -258,6 +271,12 @@ func c05Replay(plan *Plan) *Violation {
 	if sc.Kind == "unmutated" {
 		if v := verdict(sc.Readers[0].bytes()); !v.Valid {
 			return &Violation{Clause: "C05.valid-rejected", OpIndex: 0, Observed: v}
+		}
+	}
+	// the loads that came just before it in the same process: an outcome that depends on them needs them to replay
+	if pre, ok := decodeExtra[[]streamCase](plan, "prelude"); ok {
+		for i := range pre {
+			c05Case(&pre[i], idx-len(pre)+i, nil)
 		}
 	}
 	return c05Case(&sc, idx, nil)
